@@ -56,7 +56,10 @@ def dt_modules():
     import doctrans.gen
     import doctrans.sync_properties
 
-    return [doctrans.emit, doctrans.gen, doctrans.conformance, doctrans.sync_properties]
+    import shutil
+
+    # (shutil too: a copy INTO an existing project file is a write to that file like any other)
+    return [doctrans.emit, doctrans.gen, doctrans.conformance, doctrans.sync_properties, shutil]
 
 
 # ------------------------------------------------------------------------------ operations
@@ -219,7 +222,7 @@ def enumerate_faults(ctx, op, meta, tmproot, crash_sample):
     ctx.event("operations")
     ctx.event("write_points_measured", n_writes)
     ctx.event("conversion_steps_measured", m_steps)
-    points = [("step", j, None) for j in range(m_steps)] + [("write", k, mode) for k in range(n_writes) for mode in ("before_open", "before_write", "mid_write")]
+    points = [("step", j, None) for j in range(m_steps)] + [("write", k, mode) for k in range(n_writes) for mode in ("before_open", "before_write", "mid_write", "at_close")]
     for kind, idx, mode in points:
         for crash in (False, True):
             if crash and (kind == "step" or not crash_sample):
